@@ -104,6 +104,50 @@ def _receiver_chain(t: Term) -> List[Term]:
     return out
 
 
+def header_lookup_forward_only(ck, rule):
+    """QryStartPos / QryEndPos of a '-' record are coordinates of the MIRRORED molecule (length - 1 - p, C02.9): looked up in
+    query.positions with list.index they are found only by coincidence, otherwise ValueError - in the parent process, between the
+    passes: no XMAP at all. The forward strand is the only one on which a header query coordinate is a label coordinate."""
+    p = ck.ctx.p
+    ck.clause(rule, "a record's query start / end coordinate is looked up among the query's label coordinates (list.index) only where the "
+                    "record is known to be on the forward strand: on '-' the header holds mirrored coordinates, index() raises ValueError "
+                    "between the passes and the run ends without output")
+    fn = p.find_method("AlignmentResultRow", "getUnalignedFragments")
+    if fn is None:
+        raise AnalysisError("AlignmentResultRow.getUnalignedFragments not found")
+    HEAD = {T.mk_attr(V(fn.self_name), "queryStartPosition"), T.mk_attr(V(fn.self_name), "queryEndPosition")}
+    FWD = T.mk_eq(T.mk_attr(V(fn.self_name), "orientation"), C("+"))
+    REV = T.mk_attr(V(fn.self_name), "reverseStrand")
+    seen = {}
+    for pa in explore(ck, fn, unroll=(0, 1)):
+        for t, facts, node, kind in path_terms(pa):
+            for x in T.subterms(t):
+                if not (x[0] == "mcall" and x[2] == "index" and x[1][0] == "attr" and x[1][2] == "positions"):
+                    continue
+                args = [a for a in x[3]] if isinstance(x[3], tuple) else []
+                if not any(h in set(T.subterms(a if not (isinstance(a, tuple) and len(a) == 2 and isinstance(a[0], str) and not isinstance(a[1], str)) else a[1])) for a in args for h in HEAD) \
+                        and not any(T.contains(x, h) for h in HEAD):
+                    continue
+                forward = facts.get(FWD) is True or facts.get(T.as_bool(FWD)) is True or facts.get(REV) is False \
+                    or facts.get(T.mk_eq(T.mk_attr(V(fn.self_name), "orientation"), C("-"))) is False
+                key = getattr(node, "lineno", 0), T.show(x)[-60:]
+                seen[key] = seen.get(key, True) and forward
+                seen.setdefault(("node", key), node)
+    sites = [k for k in seen if k[0] != "node"]
+    for key in sites:
+        node = seen[("node", key)]
+        construct = f"getUnalignedFragments:index@{key[1].split('.index')[-1]}"
+        if seen[key]:
+            ck.ok(rule, construct, where(fn, node), "looked up on the forward strand only")
+        else:
+            ck.violation(rule, construct, where(fn, node),
+                         "a header query coordinate is looked up with positions.index(...) on a path where the record may be on the reverse "
+                         "strand: QryStartPos / QryEndPos of a '-' record are length - 1 - p, not label coordinates - ValueError '... is not in "
+                         "list' between the passes, the whole run ends without output (every multi-pass mode, any partially aligned '-' record)",
+                         found=key[1], required="under orientation == '+' (the '-' branch cuts by the label numbers of the aligned pairs)")
+    ck.floor(rule + " header coordinates looked up in the label list", len(sites), 2)
+
+
 def pop_loops_test_emptiness(ck, rule):
     """`while <test of xs[-1]>: xs.pop()` evaluates xs[-1] again after every pop: unless the loop condition itself asks whether the
     list still has elements, a list whose every element passes the test ends in IndexError. An `if xs:` in front of the loop
@@ -665,6 +709,15 @@ def run(ck):
         bare_flag_value(ck, "C07.G26")
     if ck.wants("C07.G27"):
         pop_loops_test_emptiness(ck, "C07.G27")
+    if ck.wants("C07.G28"):
+        header_lookup_forward_only(ck, "C07.G28")
+    ck.clause("C07.G29", "a joined record names the query and the reference of its parts (as C08.6): the reader the program wires up looks "
+                         "every record's maps up by id - a record that names a map that is not in the input (ids exchanged) ends the "
+                         "read-back with StopIteration")
+    if ck.wants("C07.G29"):
+        from . import c08 as _c08_29
+        from ..report import RuleView as _RV29
+        _c08_29._joined_row(_RV29(ck, {"C08.6": "C07.G29"}, only_constructs=(":queryId", ":referenceId")))
     ck.clause("C07.G23", "output directories are created with exist_ok=True: the same command run twice (or two modes into one place) "
                          "must not abort on the directory the first run left - argparse has already truncated the -o file by then")
     n_mk = 0
